@@ -111,6 +111,8 @@ class Site(object):
                 for l in d.get('links', []):
                     if not l.get('inline'):
                         parts.append('<link rel="next" href="%s">' % (l.get('spelling') or self.url_text(l['to'])))
+            if d.get('base'):
+                parts.append('<base href="%s">' % d['base'])        # relative links of THIS document resolve against it
             if d.get('nofollow'):
                 parts.append('<meta name="robots" content="nofollow">')
             parts.append('<title>t</title></head><body>')
